@@ -515,7 +515,7 @@ func (s *sim) checkMustEnd() {
 				continue // its transport write is still in flight: that is the simulator's doing
 			}
 			s.violate("C04", "peer-ends", "other direction not ended after one direction ended",
-				"stream %s should have ended by itself since step %d (its peer was released, its client went away or the program is shutting down) but is still running with nothing in flight", h.name(), since)
+				"stream %s should have ended by itself since step %d (its peer was released, its client went away, its own transport failed or the program is shutting down) but is still running with nothing in flight", h.name(), since)
 			return
 		}
 	}
